@@ -14,7 +14,7 @@
    other genes in between, multi-gene runs, failing genes); independence of PYTHONHASHSEED (fresh processes, seeds 0-7);
    CPython object identity; the process-wide debug store aldy.common.json. *)
 From Coq Require Import String Permutation.
-From Aldy Require Import Base Consts Frame FrameProofs Frame_here Tied_frame.
+From Aldy Require Import Base Consts Frame FrameProofs Frame_here Tied_frame Diplotype NamesOrderProofs.
 Import List.
 Open Scope Z_scope.
 
@@ -124,3 +124,20 @@ Theorem C14_candidate_independent_refuted :
 Proof. exact candidate_independent_refuted. Qed.
 Goal True. idtac "ASSUME C14_candidate_independent_refuted". Abort.
 Print Assumptions C14_candidate_independent_refuted.
+
+(* ================================================================= names and the order of a copy's variant lists
+   The lists SolvedAllele.added / missing are filled in the order the read-out of the minor stage meets the variants (set and
+   dictionary iteration: hash seed).  Every printer of solutions.py sorts them; for all lists in which a (position, operation)
+   pair denotes one variant, the sorted list - and with it every name of the copy - is the same for any two orders. *)
+Theorem C14_sort_vars_order_free : forall l l', Permutation l l' -> key_inj l -> sort_vars l = sort_vars l'.
+Proof. exact sort_vars_order_free. Qed.
+Goal True. idtac "ASSUME C14_sort_vars_order_free". Abort.
+Print Assumptions C14_sort_vars_order_free.
+
+Theorem C14_names_order_free : forall a a', same_copy a a' ->
+  (forall display, allele_major_name display a = allele_major_name display a') /\
+  (forall legacy, allele_minor_name legacy a = allele_minor_name legacy a') /\
+  allele_str a = allele_str a' /\ allele_major_repr a = allele_major_repr a'.
+Proof. exact names_order_free. Qed.
+Goal True. idtac "ASSUME C14_names_order_free". Abort.
+Print Assumptions C14_names_order_free.
